@@ -135,6 +135,11 @@ def run(prog, tier):
     dK, dm = M.atom("dK", 2, True), M.atom("dm", 1)
     gm = env.get("grad[self.mean_slice]")
     gc = env.get("grad[self.cov_slice]")
+    if gm is None and gc is None and isinstance(res, TupleV) and len(res.items) == 2 and getattr(res.items[1], "concat", False) \
+            and len(res.items[1].items) == 2:
+        # the gradient assembled as concatenate([mean part, covariance part]): piece k fills the k-th slice, and the slices are
+        # mean-first (slice-layout, below)
+        gm, gc = res.items[1].items
     def per_parameter(v, which):
         """One value per hyper-parameter: a comprehension over the gradient list, or a stacked product."""
         if isinstance(v, ListV) and len(v.items) == 1:
